@@ -120,6 +120,66 @@ mutate "(w6) harmless: ArrayStack.Values counts from 0" $AS \
 		elements[size-i], _ = stack.list.Get(i - 1) // in reverse (LIFO)' '	for i := 0; i < size; i++ {
 		elements[size-i-1], _ = stack.list.Get(i)'
 
+AL=lists/arraylist/arraylist.go
+mutate "(l1) shrink resizes to length cap/4 (phantom zero elements)" $AL \
+'		list.resize(len(list.elements), len(list.elements))' '		list.resize(int(float32(currentCapacity)*shrinkFactor), int(float32(currentCapacity)*shrinkFactor))'
+
+mutate "(l2) shrink keeps the length but sets the capacity to cap/4" $AL \
+'		list.resize(len(list.elements), len(list.elements))' '		list.resize(len(list.elements), int(float32(currentCapacity)*shrinkFactor))'
+
+mutate "(l3) growBy grows by 1.5 (not a supported dyadic product of ints? 1.5 = 3/2 is dyadic)" $AL \
+'growthFactor = float32(2.0)' 'growthFactor = float32(1.5)'
+
+mutate "(l4) growthFactor 1.1 is not dyadic: refused" $AL \
+'growthFactor = float32(2.0)' 'growthFactor = float32(1.1)'
+
+mutate "(l5) Remove deletes two elements" $AL \
+'slices.Delete(list.elements, index, index+1)' 'slices.Delete(list.elements, index, index+2)'
+
+mutate "(l6) Add copies to the wrong offset" $AL \
+'		list.elements[l+i] = values[i]' '		list.elements[i] = values[i]'
+
+mutate "(l7) Insert does not re-shorten before slices.Insert" $AL \
+'slices.Insert(list.elements[:l], index, values...)' 'slices.Insert(list.elements, index, values...)'
+
+mutate "(l8) value-model-harmless aliasing bug: Values returns the internal slice when len == cap" $AL \
+'	return slices.Clone(list.elements)' '	if len(list.elements) == cap(list.elements) {
+		return list.elements
+	}
+	return slices.Clone(list.elements)'
+
+mutate "(l9) value-model-harmless: Insert fast path append(values, list.elements...) at index 0" $AL \
+'	l := len(list.elements)
+	list.growBy(len(values))
+	list.elements = slices.Insert' '	if index == 0 {
+		list.elements = append(values, list.elements...)
+		return
+	}
+	l := len(list.elements)
+	list.growBy(len(values))
+	list.elements = slices.Insert'
+
+mutate "(l10) harmless: Set tests the range positively" $AL \
+'	if !list.withinRange(index) {
+		// Append
+		if index == len(list.elements) {
+			list.Add(value)
+		}
+		return
+	}
+
+	list.elements[index] = value' '	if list.withinRange(index) {
+		list.elements[index] = value
+		return
+	}
+	if index == len(list.elements) {
+		list.Add(value)
+	}'
+
+mutate "(l11) harmless: growBy names the new length before the if" $AL \
+'	if newLength := len(list.elements) + n; newLength >= currentCapacity {' '	newLength := len(list.elements) + n
+	if newLength >= currentCapacity {'
+
 mutate "(h) Dequeue forgets to wrap start" $CB \
 '	if queue.start >= queue.maxSize {
 		queue.start = 0
